@@ -135,13 +135,20 @@ def summarise(check, tier, seed, recs, harness_notes, workdir, t0, registry):
                 mine.append(v)
     # a worker death is an outcome for the properties that speak about it
     death_viol = []
+    hung = [r for r in recs if r.get("hang")]
     if check in ("C13", "C20", "C19"):
+        for r in hung:
+            death_viol.append(dict(prop=[check], oracle="worker_hung", sig=["worker_hung"],
+                                   detail=dict(note="run exceeded its wall cap inside a kernel and was killed"),
+                                   feat=dict(hang=True), _engine=r["_engine"], _run=r["run"]))
         for r in died:
             death_viol.append(dict(prop=[check], oracle="worker_died", sig=["worker_died"],
                                    detail=dict(code=r["worker_died"]), feat=dict(code=r["worker_died"]),
                                    _engine=r["_engine"], _run=r["run"]))
     elif died:
         harness_notes.append(f"{len(died)} worker deaths (runs {[r['run'] for r in died][:5]})")
+    if check == "C20":
+        mine.extend(compare_engines(recs, "compiled", "bounds"))
     groups = {}
     for v in mine + death_viol:
         groups.setdefault((v["_engine"], sig_str(v["sig"])), []).append(v)
@@ -200,7 +207,11 @@ def summarise(check, tier, seed, recs, harness_notes, workdir, t0, registry):
     wall = time.time() - t0
     samples = registry.samples(check, seed, tier)
     evaluations = len(good)
-    inconcl_frac = (len(inconclusive) / max(1, n_runs))
+    # a wall-cap hit in the interpreted twin is a speed limit of plain Python (pure-Python sparse
+    # kernels), reported but not held against the run; in the compiled engines it matters
+    inc_compiled = [r for r in inconclusive if r.get("_engine") != "twin"]
+    n_compiled = sum(1 for r in recs if r.get("_engine") != "twin")
+    inconcl_frac = (len(inc_compiled) / max(1, n_compiled))
     coverage = dict(
         evaluations=int(evaluations),
         distinct_nontrivial=int(len(distinct)),
@@ -218,6 +229,7 @@ def summarise(check, tier, seed, recs, harness_notes, workdir, t0, registry):
         harness_errors=len(harness),
         seam_missing=sorted(seam_missing),
         known_findings_matched={k: n for k, (f, n) in known_lines.items()},
+        engine_pairs_compared=getattr(compare_engines, "pairs", 0) if check == "C20" else None,
         unlisted_violation_classes=[s for s, _, _ in violation_paths],
         real_code=["all of skglm (solvers, datafits, penalties, estimators, utils) from "
                    + os.environ.get("VERIF_REPO", "/repo")],
@@ -248,6 +260,58 @@ def summarise(check, tier, seed, recs, harness_notes, workdir, t0, registry):
               f"inconclusive fraction={inconcl_frac:.3f})")
         return 2
     return 0
+
+
+def compare_engines(recs, a, b):
+    """C20: the same seeds executed with and without array bounds checking must agree."""
+    import numpy as np
+    by = {}
+    for r in recs:
+        if "digest" in r and r.get("final") is not None:
+            by.setdefault(r["run"], {})[r["_engine"]] = r
+    out = []
+    n_pairs = 0
+    for run, d in sorted(by.items()):
+        if a not in d or b not in d:
+            continue
+        n_pairs += 1
+        fa, fb = d[a]["final"], d[b]["final"]
+        fam = d[a].get("fam") or ["?", "?", "?"]
+        bad = None
+
+        def num(v):
+            return float(v) if not isinstance(v, str) else float(v)
+        if len(fa) != len(fb):
+            bad = "different number of results"
+        else:
+            for x, y in zip(fa, fb):
+                # trajectories are not compared step by step: a bounds-checked build rounds
+                # differently and the solvers branch on rounding-level quantities; what must
+                # agree is the outcome class and, where both claim convergence on a convex
+                # problem under the subdifferential criterion, the objective value
+                if x.get("outcome") != y.get("outcome"):
+                    bad = f"outcome differs: {x.get('outcome')}/{x.get('exc')} vs {y.get('outcome')}/{y.get('exc')}"
+                    break
+                if x.get("outcome") != "solved":
+                    continue
+                if x.get("claimed") and y.get("claimed") and x.get("exact") and y.get("exact") \
+                        and x.get("P") is not None and y.get("P") is not None:
+                    wa = np.array([num(v) for v in x["w"]])
+                    wb = np.array([num(v) for v in y["w"]])
+                    Pa, Pb = num(x["P"]), num(y["P"])
+                    if wa.shape != wb.shape:
+                        bad = "shapes differ"
+                        break
+                    margin = x["tol"] * float(np.sum(np.abs(wa - wb))) * 1.001 + 1e-9 * (1 + abs(Pa))
+                    if np.isfinite(Pa) and np.isfinite(Pb) and abs(Pa - Pb) > margin:
+                        bad = f"converged objectives differ: {Pa} vs {Pb} (margin {margin})"
+                        break
+        if bad:
+            out.append(dict(prop=["C20"], oracle="bounds_replay", sig=fam + ["bounds_replay_differs"],
+                            detail=dict(what=bad), feat=dict(solver=fam[0], datafit=fam[1], penalty=fam[2],
+                                                             what=bad), _engine=b, _run=run))
+    compare_engines.pairs = n_pairs
+    return out
 
 
 def _entry_args(v, recs, engine, run):
